@@ -269,6 +269,10 @@ func c11Run(c *core.Case, o *core.Outcome) {
 		}
 		// start at a window chosen by seed (absolute alignment is f1's business)
 		t0 = t0.Add(R * time.Duration(r.IntN(3)))
+		if r.IntN(4) == 0 {
+			// the same instants carried by timestamps of another zone (a process with TZ set, a chart start given with an offset)
+			t0 = t0.In(time.FixedZone("elsewhere", pick(r, 19800, -18000, 3600, 45900, -34200)))
+		}
 		sums := make([]float64, windows)
 		unitSum := 0.0 // Σ_k g(k f) * f  for one window (no weights, volume 1 ... times 1/covered later)
 		for k := 0; k < n; k++ {
